@@ -1,0 +1,12 @@
+// SPDX-License-Identifier: MPL-2.0
+
+//! Hooks for the external verification machinery (feature `verif-hooks`). Nothing in this module
+//! is part of the library's API; it only re-exports crate-private routines so that a checker can
+//! drive them directly.
+
+/// Apply the raw limb-arithmetic operation `op` of parameter set `field` (`FP8`, `FP16S`, `FP32`,
+/// `FP64`, `FP128`) to the words `x` and `y`. Returns `None` for an unknown field or operation, or
+/// when an operand does not fit the word type.
+pub fn fp_op(field: &str, op: &str, x: u128, y: u128) -> Option<u128> {
+    crate::fp::verif_fp_op(field, op, x, y)
+}
